@@ -59,6 +59,32 @@ static void h_sem(int argc, char **argv)
     mc_outcome("ok");
 }
 
+/* semrace: an OPEN-mode open races with the owner's free of the same name.  Whatever the order, a handle that is returned
+ * must see either the existing counter (1 unit) or a fresh one with the requested value (2 units): at least one acquire succeeds */
+static void *semrace_opener(void *arg)
+{
+    PSemaphore *s = p_semaphore_new(NAME, 2, P_SEM_ACCESS_OPEN, NULL); (void)arg;
+    if (s) {
+        mc_mark();
+        p_semaphore_acquire(s, NULL);            /* blocks forever (reported as deadlock) if the handle got a counter of 0 */
+        if (mc_in_call_blocked()) mc_fail("C06", "sched/open-race-zero-counter", "a handle opened while the owner freed the name sees a counter that is neither the existing one (1) nor a fresh one with the requested value (2)");
+        p_semaphore_take_ownership(s); p_semaphore_free(s);
+        mc_nontrivial(1);
+    } else mc_nontrivial(2);
+    return NULL;
+}
+static void h_semrace(int argc, char **argv)
+{
+    PSemaphore *owner; int t; (void)argc; (void)argv;
+    mkname();
+    owner = p_semaphore_new(NAME, 1, P_SEM_ACCESS_OPEN, NULL);
+    t = mc_thread_create(semrace_opener, NULL);
+    p_semaphore_free(owner);                   /* creator = owner: removes the name */
+    mc_thread_join(t);
+    names_gone("C06");
+    mc_outcome("ok");
+}
+
 /* ------------------------------------------------------------------ shm */
 static int shm_holders, shm_success, shm_failed;
 static const char *shm_mode = "lockers";      /* "creators": nobody created the segment beforehand (concurrent first-time open) */
@@ -79,6 +105,7 @@ static void *shm_thread(void *arg)
     if (mc_in_call_blocked()) mc_nontrivial(0);
     shm_enter();
     ctr = (long *)p_shm_get_address(h);
+    mc_name(ctr, sizeof *ctr, shm_mode[0] == 'c' ? "shm.creators.counter" : "shm.lockers.counter");
     mc_step();
     *ctr = *ctr + 1;
     mc_step();
@@ -161,6 +188,6 @@ static void h_shmbuf(int argc, char **argv)
 }
 
 static const McHarness HS[] = {
-    {"sem", h_sem, "<threads> <init>"}, {"shmcreate", h_shmcreate, "<participants>"}, {"shmlock", h_shmlock, "<participants>"}, {"shmbuf", h_shmbuf, "<script>..."},
+    {"sem", h_sem, "<threads> <init>"}, {"semrace", h_semrace, ""}, {"shmcreate", h_shmcreate, "<participants>"}, {"shmlock", h_shmlock, "<participants>"}, {"shmbuf", h_shmbuf, "<script>..."},
 };
-int main(int argc, char **argv) { return mc_main(argc, argv, HS, 4); }
+int main(int argc, char **argv) { return mc_main(argc, argv, HS, 5); }
